@@ -266,7 +266,7 @@ class World:
             self.finished = True
         except Exception as exc:
             _guard(exc)
-            self.fault = f"{type(exc).__name__}: {str(exc).splitlines()[0][:160]}"
+            self.fault = f"{type(exc).__name__}: {(str(exc).splitlines() or [""])[0][:160]}"
             self.finished = True
 
     @property
@@ -345,7 +345,7 @@ class World:
             self.fault = "RecursionError in response handling"
         except Exception as exc:
             _guard(exc)
-            self.fault = f"{type(exc).__name__}: {str(exc).splitlines()[0][:160]}"
+            self.fault = f"{type(exc).__name__}: {(str(exc).splitlines() or [""])[0][:160]}"
 
     # ---- observation ---------------------------------------------------------------------
     def snapshot(self) -> Dict[str, Any]:
